@@ -143,7 +143,16 @@ def decorate(draw, p):
 @st.composite
 def history_case(draw, disabled=()):
     npool = draw(st.integers(2, 3))
-    pool = [decorate(draw, draw(semantic_program(profile="modelled", disabled=disabled, max_stmts=8))) for _ in range(npool)]
+    # two thirds of the pools share a vocabulary: same flavour, same one or two governed fields in every program,
+    # so that state kept from one analysis (caches keyed by field / constant) meets the same keys in the next one
+    from vf.gen_sem import DETECTOR_FIELDS
+
+    if draw(st.integers(0, 2)):
+        m_ = draw(st.sampled_from(["lsig", "app"]))
+        foc = draw(st.lists(st.sampled_from(DETECTOR_FIELDS[m_]), min_size=1, max_size=2, unique=True))
+        pool = [decorate(draw, draw(semantic_program(profile="modelled", disabled=disabled, max_stmts=8, mode=m_, focus=foc))) for _ in range(npool)]
+    else:
+        pool = [decorate(draw, draw(semantic_program(profile="modelled", disabled=disabled, max_stmts=8))) for _ in range(npool)]
     ops = []
     for _ in range(draw(st.integers(3, 10))):
         k = draw(st.integers(0, 9))
